@@ -83,7 +83,7 @@ BATTERY = [
     ("drop_duplicates", lambda d: d[["i", "b"]].drop_duplicates(), 0, 0), ("s_drop_duplicates", lambda d: d.k.drop_duplicates(), 0, 0),
     ("nlargest", lambda d: d.nlargest(2, ["g", "u"]), 1, 1), ("nsmallest", lambda d: d.nsmallest(3, "u"), 1, 1), ("s_nlargest", lambda d: d.u.nlargest(2), 1, 1),
     ("sort_values_u", lambda d: d.sort_values("u"), 1, 1), ("sort_values_desc", lambda d: d.sort_values("u", ascending=False), 1, 1), ("sort_values_2", lambda d: d.sort_values(["k", "u"]), 1, 1),
-    ("sort_values_ties", lambda d: d.sort_values("k"), 0, 1), ("sort_values_na", lambda d: d.sort_values(["f", "u"]), 1, 1), ("set_index_u", lambda d: d.set_index("u"), 1, 1),
+    ("sort_values_ties", lambda d: d.sort_values("k"), 0, 1), ("sort_values_na", lambda d: d.sort_values(["f", "u"]), 1, 1), ("set_index_u", lambda d: d.set_index("u").sort_index(kind="stable") if isinstance(d, pd.DataFrame) else d.set_index("u"), 1, 1),
     ("set_index_k", lambda d: d.set_index("k").sort_index(kind="stable") if isinstance(d, pd.DataFrame) else d.set_index("k"), 0, 1),
     ("set_index_dt", lambda d: d.set_index("t").sort_index(kind="stable") if isinstance(d, pd.DataFrame) else d.set_index("t"), 0, 1),
     ("index_max", lambda d: d.index.max(), 1, 1), ("index_series", lambda d: d.index.to_series(), 1, 1),
